@@ -15,7 +15,18 @@ use rooc::verif_hooks::{analyze_bounds, linearizer_bounds};
 use rooc::{BinOp, Comparison, InputSpan, Linearizer, OptimizationType, UnOp, VariableType};
 use crate::gen_model::{self, VarDecl};
 
-const TOL: f64 = 1e-9; // bounds.rs DEFAULT_TOLERANCE (private there; a change shows up as a diff)
+/// `DEFAULT_TOLERANCE` of bounds.rs (private there): read from the source the harness is linked against, so that the
+/// requests follow a change of the constant (the step limit comes from `Gen/Consts.lean` the same way).
+fn default_tolerance() -> f64 {
+    static T: std::sync::OnceLock<f64> = std::sync::OnceLock::new();
+    *T.get_or_init(|| {
+        let src = std::fs::read_to_string("/repo/packages/rooc/src/transformers/bounds.rs").unwrap_or_default();
+        src.lines()
+            .find_map(|l| l.trim().strip_prefix("const DEFAULT_TOLERANCE: f64 =").map(|r| r.trim().trim_end_matches(';').trim().to_string()))
+            .and_then(|t| t.parse::<f64>().ok())
+            .unwrap_or(1e-9)
+    })
+}
 const INF: f64 = f64::INFINITY;
 
 // ---------------------------------------------------------------- expression helpers
@@ -78,7 +89,7 @@ fn run(inst: &Inst) -> Case {
     for n in &mentioned {
         if !domain.contains_key(n) { exprs.push(v(n)); }
     }
-    let mut req = format!("analyze {} {} (constraints", sx::num(TOL), sx::domain(&domain));
+    let mut req = format!("analyze {} {} (constraints", sx::num(default_tolerance()), sx::domain(&domain));
     for c in &inst.constraints { req.push(' '); req.push_str(&sx::constraint(c)); }
     req.push_str(") (exprs");
     for e in &exprs { req.push(' '); req.push_str(&sx::exp(e)); }
@@ -154,7 +165,7 @@ fn run_lin(inst: &Inst) -> Option<Case> {
             else { Constraint::new(n(c.lhs()), c.constraint_type(), n(c.rhs()), c.name().to_string()) }
         }).collect::<Vec<_>>()
     }).ok()?;
-    let mut tail = format!("{} {} (constraints", sx::num(TOL), sx::domain(&domain));
+    let mut tail = format!("{} {} (constraints", sx::num(default_tolerance()), sx::domain(&domain));
     for c in &norm { tail.push(' '); tail.push_str(&sx::constraint(c)); }
     tail.push(')');
     let mut c = Case::default();
@@ -221,7 +232,7 @@ fn run_compiled(inst: &Inst) -> Option<Case> {
         }).collect::<Vec<_>>()
     }).ok()?;
     let mut c = Case::default();
-    c.req = format!("compile-domains {} {}", sx::model(&model), sx::num(TOL));
+    c.req = format!("compile-domains {} {}", sx::model(&model), sx::num(default_tolerance()));
     let res = std::panic::catch_unwind(std::panic::AssertUnwindSafe(|| Linearizer::linearize(model.clone())));
     let mut kind = "compiled";
     match res {
@@ -240,27 +251,27 @@ fn run_compiled(inst: &Inst) -> Option<Case> {
             c.imp = format!("(ok {})", sx::domain(&published));
             c.nontrivial = lm.variables().iter().any(|v| v.starts_with('$'));
             if c.nontrivial { kind = "compiled-aux"; }
-            // pseudo report for the oracle: the published domain of every declared variable (declared one if it was dropped)
+            // The published domain of every USED declared variable must be the one `verif_hooks::linearizer_bounds` reports
+            // (the hook runs the same three steps); the oracle then gets the hook's full report, so that its root-cause
+            // classification (Shadow run == implementation) applies here as well.
             let src = model.domain();
-            let mut vars = String::from("(vars");
-            let mut dom = IndexMap::new();
-            for (n, dv) in src {
-                let t = published.get(n).map(|p| *p.get_type()).unwrap_or(*dv.get_type());
-                let (lo, hi) = match t {
-                    VariableType::Boolean => (0.0, 1.0),
-                    VariableType::IntegerRange(a, b) => (a as f64, b as f64),
-                    VariableType::NonNegativeReal(a, b) | VariableType::Real(a, b) => (a, b),
-                };
-                vars.push(' '); vars.push_str(&b(lo, hi));
-                let mut nd = DomainVariable::new(canon_ty(&t), InputSpan::default());
-                for _ in 0..dv.usage_count() { nd.increment_usage(); }
-                dom.insert(n.clone(), nd);
+            let rep = linearizer_bounds(src, &inst.constraints);
+            for (n, dv) in &published {
+                if n.starts_with('$') { continue; }
+                let hooked = rep.domain.get(n).map(|d| sx::var_type(&canon_ty(d.get_type())));
+                if hooked.as_deref() != Some(sx::var_type(dv.get_type()).as_str()) && c.impl_violation.is_none() {
+                    c.impl_violation = Some(format!("Linearizer::linearize publishes {} as {:?} but analyze|>enforceable|>apply_to_domain gives {:?}", n, dv.get_type(), rep.domain.get(n).map(|d| *d.get_type())));
+                }
             }
-            vars.push(')');
-            let mut tail = format!("{} {} (constraints", sx::num(TOL), sx::domain(src));
+            let mut imp = String::from("(ok (vars");
+            for (_, lo, hi) in &rep.variables { imp.push(' '); imp.push_str(&b(*lo, *hi)); }
+            imp.push_str(") (exprs) ");
+            imp.push_str(&sx::domain(&canon_dom(&rep.domain)));
+            imp.push(')');
+            let mut tail = format!("{} {} (constraints", sx::num(default_tolerance()), sx::domain(src));
             for x in &norm { tail.push(' '); tail.push_str(&sx::constraint(x)); }
             tail.push(')');
-            c.oracle = format!("check-lin {} (ok {} (exprs) {})", tail, vars, sx::domain(&dom));
+            c.oracle = format!("check-lin {} {}", tail, imp);
         }
         // which error, and whether the port agrees on it, is C01's subject (detailed error diff there)
         Ok(Err(_)) => { c.imp = "(err)".into(); c.req = String::new(); kind = "compile-error"; }
@@ -629,16 +640,32 @@ fn s_steplimit(r: &mut Rng) -> Inst {
     // DEFAULT_MAX_STEPS visits
     let q = *r.pick(&[0.9999, 0.99995, 0.99999]);
     let hi = *r.pick(&[100.0, 1000.0, 64.0]);
-    let kind = r.below(3);
+    let kind = r.below(6);
     let (domain, cs) = match kind {
         0 => (vec![("x".to_string(), VariableType::Real(0.0, hi)), ("y".to_string(), VariableType::Real(0.0, hi))],
               vec![row(v("x"), Comparison::LessOrEqual, mul(k(q), v("y")), 0), row(v("y"), Comparison::LessOrEqual, v("x"), 1)]),
         1 => (vec![("x".to_string(), VariableType::IntegerRange(0, hi as i32)), ("y".to_string(), VariableType::NonNegativeReal(0.0, hi))],
               vec![row(sub(v("x"), mul(k(q), v("y"))), Comparison::LessOrEqual, k(0.0), 0), row(v("y"), Comparison::Equal, v("x"), 1),
                    row(v("x"), Comparison::GreaterOrEqual, k(0.0), 2)]),
-        _ => (vec![("x".to_string(), VariableType::Real(-hi, hi)), ("y".to_string(), VariableType::Real(-hi, hi)), ("z".to_string(), VariableType::Real(-hi, hi))],
+        2 => (vec![("x".to_string(), VariableType::Real(-hi, hi)), ("y".to_string(), VariableType::Real(-hi, hi)), ("z".to_string(), VariableType::Real(-hi, hi))],
               vec![row(abs(v("x")), Comparison::LessOrEqual, mul(k(q), v("y")), 0), row(v("y"), Comparison::LessOrEqual, Exp::Max(vec![v("z"), k(0.0)]), 1),
                    row(v("z"), Comparison::LessOrEqual, abs(v("x")), 2)]),
+        // webs: several rows share the contracting variables, so that one change re-queues more than one row (the
+        // `queued` flags and the order of the dependency lists decide which row is visited when the limit hits) and
+        // a non-affine row depends on variables that only occur on its right-hand side
+        3 => (vec![("x".to_string(), VariableType::Real(0.0, hi)), ("y".to_string(), VariableType::Real(0.0, hi)), ("z".to_string(), VariableType::Real(0.0, hi)), ("w".to_string(), VariableType::Real(0.0, hi))],
+              vec![row(v("x"), Comparison::LessOrEqual, mul(k(q), v("y")), 0), row(v("y"), Comparison::LessOrEqual, v("x"), 1),
+                   row(v("z"), Comparison::LessOrEqual, add(mul(k(0.5), v("x")), mul(k(0.5), v("y"))), 2),
+                   row(v("w"), Comparison::LessOrEqual, Exp::Max(vec![v("z"), mul(k(q), v("x"))]), 3),
+                   row(add(v("x"), v("w")), Comparison::LessOrEqual, mul(k(2.0), v("y")), 4)]),
+        4 => (vec![("x".to_string(), VariableType::Real(0.0, hi)), ("y".to_string(), VariableType::Real(0.0, hi)), ("z".to_string(), VariableType::Real(0.0, hi))],
+              vec![row(k(0.0), Comparison::GreaterOrEqual, sub(abs(v("x")), mul(k(q), v("y"))), 0),
+                   row(Exp::Min(vec![v("y"), k(hi)]), Comparison::LessOrEqual, Exp::Max(vec![v("z"), v("x")]), 1),
+                   row(v("z"), Comparison::LessOrEqual, v("x"), 2), row(v("z"), Comparison::LessOrEqual, mul(k(q), v("y")), 3)]),
+        _ => (vec![("x".to_string(), VariableType::Real(0.0, hi)), ("y".to_string(), VariableType::Real(0.0, hi)), ("z".to_string(), VariableType::Real(0.0, hi))],
+              vec![row(v("y"), Comparison::LessOrEqual, v("x"), 0), row(v("z"), Comparison::LessOrEqual, v("y"), 1),
+                   row(v("x"), Comparison::LessOrEqual, mul(k(q), v("z")), 2), row(v("x"), Comparison::LessOrEqual, mul(k(q), v("y")), 3),
+                   row(add(v("y"), v("z")), Comparison::LessOrEqual, mul(k(2.0 * q), v("x")), 4)]),
     };
     let vars = var_names(2);
     let exprs = std_exprs(r, &vars, 1);
@@ -727,12 +754,18 @@ fn s_special(r: &mut Rng) -> Inst {
     let cfg = ExpCfg { vars: vars.clone(), logic: true, minmax: true, special: true };
     let mut cs = vec![];
     for i in 0..1 + r.below(3) {
-        let l = match r.below(6) {
+        let l = match r.below(9) {
             0 => mul(k(special(r)), pv(r, &vars)),
             1 => add(pv(r, &vars), k(special(r))),
             2 => div(pv(r, &vars), k(special(r))),
             3 => add(mul(k(special(r)), pv(r, &vars)), mul(k(special(r)), pv(r, &vars))),
             4 => abs(mul(k(special(r)), pv(r, &vars))),
+            5 | 6 | 7 => match r.below(3) {
+                // coefficients that overflow only after merging / scaling (non-finite affine form, fix 48f25ce)
+                0 => mul(k(1e300), mul(k(*r.pick(&[1e300, -1e300, 1e10])), pv(r, &vars))),
+                1 => div(pv(r, &vars), k(*r.pick(&[5e-324, 1e-310, -1e-320, 1e-300]))),
+                _ => add(mul(k(1e308), pv(r, &vars)), mul(k(1e308), pv(r, &vars))),
+            },
             _ => gen_exp::exp(r, &cfg, 3),
         };
         let rhs = if r.chance(1, 3) { k(special(r)) } else { k(nice(r)) };
@@ -867,7 +900,7 @@ pub fn generate(seed: u64, n: usize, _thorough: bool, _corpus: Option<&str>) -> 
         if let Some(c) = run_compiled(inst) { cases.push(c); }
     }
     // the step-limit stream costs 10^4 visits per case on both sides: a fixed small share
-    let slow = (n / 60).max(3);
+    let slow = (n / 30).max(6);
     for j in 0..slow {
         let inst = s_steplimit(&mut r);
         cases.push(run(&inst));
